@@ -31,6 +31,7 @@ META = {
         "callback sequence, each sender's tokens are processed in its send order, no token without "
         "callbacks. "
         "further asyncio configurations: an explicit activate_initial_state() task racing with senders while the initial enter is suspended, coroutine guards overlapping another sender, cancellation of a sender at each suspension point; focused thread DFS (engine code objects only) with bound 3. "
+        "The cancellation probe keeps surviving callbacks of the cancelled sender in play. "
         "distinct_nontrivial = distinct schedules with >=1 context switch inside the "
         "dispatch code (threads) / >=1 switch between tasks while a callback is suspended (asyncio)."
     ),
